@@ -372,7 +372,7 @@ func (srv *Srv) write(req *SrvReq) {
 		return
 	}
 
-	if !fid.opened || (fid.Type&QTDIR) != 0 || (fid.Omode&3) == OREAD {
+	if m := fid.Omode & 3; !fid.opened || (fid.Type&QTDIR) != 0 || (m != OWRITE && m != ORDWR) {
 		req.RespondError(Ebaduse)
 		return
 	}
